@@ -627,8 +627,9 @@ def run_history(cfg, hist):
 
 
 def ramp_histories(m):
-    """start, then advance by the stride until the maximum is passed (unknown maximum: 12 steps), then finish."""
-    out = []
+    """Sweep: the single operation set_progress(s) for every s in 0..max+2 (every (step, max) pair drawn directly).
+    Ramp: start, then advance by the stride until the maximum is passed (unknown maximum: 12 steps), then finish."""
+    out = [[(0, "set_progress", s)] for s in range(0, (m if m else 12) + 3)]
     for stride in (1, 3):
         for dt in CLOCKS:
             n = (m if m else 12) // stride + 2
@@ -713,13 +714,13 @@ def plan(tier, seed):
     if T:
         mw = [(m, w) for m in maxima for w in widths]
     else:
-        # quick: every maximum and every width, 9 of the 12 pairs
-        mw = [(0, 1), (0, 28), (1, 1), (1, 4), (3, 4), (3, 28), (10, 1), (10, 4), (10, 28)]
+        # quick: every maximum and every width, 6 of the 12 pairs
+        mw = [(0, 4), (1, 1), (3, 4), (3, 28), (10, 1), (10, 28)]
     broad = [C(m, w, f, o, mn, v) for (m, w) in mw for (f, v) in fmts for mn in (0, 0.1) for o in OUTS3]
     broad += [C(m, 4, f, "quiet", 0.1, v) for m in (0, 3) for (f, v) in fmts]
     xw = EXTRA_WIDTHS[seed % len(EXTRA_WIDTHS)]  # VERIF_SEED rotates ONE extra bar width into the broad part
     broad += [C(m, xw, "default", o, 0.1, 0) for m in (3, 10) for o in OUTS3]
-    part("broad", "configuration product (quick: 9 of 12 max x width pairs) x {ansi,plain,section} x min {0,0.1} x 5 formats "
+    part("broad", "configuration product (quick: 6 of 12 max x width pairs) x {ansi,plain,section} x min {0,0.1} x 5 formats "
                   "(+ quiet for max {0,3}, + rotated width %d); all operations x all clock advances" % xw, broad, depth=2)
     # ---- broad-3: one level deeper on a covering subset
     b3 = [C(3, 4, f, o, 0.1, v) for (f, v) in [("default", 0), ("msg", 0), ("two", 0)] for o in OUTS3]
@@ -733,9 +734,12 @@ def plan(tier, seed):
     lay = [C(m, w, f, o, 0.1) for f in ("msg", "two") for o in OUTS3 for (m, w) in [(3, 4), (0, 4), (10, 28)]]
     part("layout", "message formats x {ansi,plain,section}; all operations x clock advances {0,200} ms, min 0.1", lay,
          clocks=(0, 200), depth=4 if T else 3, split=T)
-    lay2 = [C(3, 4, f, o, 0.1) for f in ("msg", "two") for o in OUTS3]
-    part("layout-deep", "message formats x {ansi,plain,section} at max 3 width 4; all operations x clock advances {0,200} ms",
-         lay2, clocks=(0, 200), depth=5 if T else 4, split=True)
+    if T:
+        lay2 = [C(3, 4, f, o, 0.1) for f in ("msg", "two") for o in OUTS3]
+    else:
+        lay2 = [C(3, 4, "two", "ansi", 0.1), C(3, 4, "msg", "section", 0.1), C(3, 4, "two", "plain", 0.1)]
+    part("layout-deep", "message formats x {ansi,plain,section} at max 3 width 4 (quick: two-line/ansi, message/section, "
+                        "two-line/plain); all operations x clock advances {0,200} ms", lay2, clocks=(0, 200), depth=5 if T else 4, split=True)
     lay0 = [C(m, 4, f, o, 0) for f in ("msg", "two") for o in OUTS3 for m in (3, 0)]
     part("layout-zero", "message formats, throttle off, no clock advance: all operations", lay0, clocks=(0,),
          depth=7 if T else 5, split=T)
@@ -824,16 +828,17 @@ def main():
     for r in results:
         rep.merge(r["violations"])
         a = agg.setdefault(r["part"], dict(states=0, transitions=0, max_depth=0, unexpanded_at_bound=0, shares=0,
-                                           shares_cut_by_violation_cap=0, frames_checked=0))
+                                           shares_cut_by_violation_cap=0, frame_checks_executed=0))
         a["states"] += r["states"]
         a["transitions"] += r["transitions"]
         a["max_depth"] = max(a["max_depth"], r["max_depth"])
         a["unexpanded_at_bound"] += r["cut"]
         a["shares"] += 1
         a["shares_cut_by_violation_cap"] += 1 if r["capped"] else 0
-        a["frames_checked"] += r["frames"]
+        a["frame_checks_executed"] += r["frames"]
         if r["part"].startswith("xcheck-"):
-            x = xkeys.setdefault(r["part"], dict(keys=set(), sigs=set(), states=0))
+            x = xkeys.setdefault(r["part"], dict(keys=set(), sigs=set(), states=0, capped=False))
+            x["capped"] = x["capped"] or r["capped"]
             if r["keys"] is not None:
                 x["keys"] |= r["keys"]
             x["sigs"] |= set(r.get("sigs", [])) | set(v["sig"] for v in r["violations"])
@@ -852,13 +857,18 @@ def main():
         res = dict(depth=depth, fingerprints_dedup=len(d["keys"]), fingerprints_nodedup=len(n["keys"]),
                    states_uncapped=u["states"], same_fingerprints=d["keys"] == n["keys"],
                    same_verdict=d["sigs"] == n["sigs"] == u["sigs"])
+        if d["capped"] or u["capped"]:
+            res["not_compared"] = "the explorer stopped at its violation cap (violations are being reported)"
         rep.part("xcheck:" + name, cfg=cfg_id(cfg), opset=opset, clocks_ms=list(clocks), **res)
+        if "not_compared" in res:
+            continue
         if not (res["same_fingerprints"] and res["same_verdict"]) or u["states"] < len(d["keys"]):
             raise RuntimeError("engine error: deduplication cross-check %s failed: %r (sigs dedup=%r nodedup=%r uncapped=%r)"
                                % (name, res, sorted(d["sigs"]), sorted(n["sigs"]), sorted(u["sigs"])))
     tot_s = tot_t = capped = 0
-    for p in parts + [dict(name="ramp", what="start, advance by 1 or 3 at a fixed clock advance until past the maximum, finish: "
-                           "one long history per (max, stride, clock advance); max in {0,1,3,10,50,200}", cfgs=ramp_cfgs,
+    for p in parts + [dict(name="ramp", what="sweep: the one-operation history set_progress(s) for every s in 0..max+2; ramp: start, advance by 1 or 3 at a "
+                           "fixed clock advance until past the maximum, finish: one long history per (max, stride, clock advance); "
+                           "max in {0,1,3,10,50,200} x width {4,28} x {ansi,plain} x min {0,0.1}", cfgs=ramp_cfgs,
                            clocks=CLOCKS, opset="ramp", depth=0, split=False)]:
         a = agg.get(p["name"], dict(states=0, transitions=0, unexpanded_at_bound=0, shares_cut_by_violation_cap=0))
         a["states"] += pre.get(p["name"], [0, 0])[0]
